@@ -331,6 +331,52 @@ def rule_once(ctx):
     return res
 
 
+def rule_sharepath(ctx):
+    """R-SHAREPATH: share and lift always lift"""
+    from ..mir import Fn, Flow, op_root, place_fields
+    fx = ctx.fx
+    res = RuleResult("R-SHAREPATH", "share (fun2core) and lift (core2axcut) are called where a continuation / statement is about to be used more than "
+                     "once: on every path to their return they add the definition to the collection of lifted definitions (the result is the "
+                     "call of that definition), or hand back their argument as it is. A path that returns something else - a part of the "
+                     "argument, say the covariable inside `mu~x.<y | a>` - has thrown the rest of the argument away")
+    for want in ("fun2core::compile::share", "core2axcut::statements::cut::lift"):
+        f = fx.fn(want)
+        fn = Fn(f)
+        flow = Flow(fn)
+        pushes = {bi for bi, t in fn.calls() if t.get("callee_name") in ("push", "push_front", "push_back")}
+        if not pushes:
+            raise AnalysisError("R-SHAREPATH: %s does not add to a collection" % f["key"])
+        rets = [b for b in fn.reach if f["blocks"][b]["term"]["k"] == "return"]
+        # paths to a return that avoid every push
+        seen, work = set(), [0]
+        escaping = False
+        while work:
+            x = work.pop()
+            if x in seen or x not in fn.reach or x in pushes:
+                continue
+            seen.add(x)
+            if f["blocks"][x]["term"]["k"] == "return":
+                escaping = True
+            work.extend(fn.succ[x])
+        ikey = "%s:always-lifts" % f["key"]
+        if not escaping:
+            res.inst(ikey, fn.file, fn.line, "ok", "every path to the return adds the lifted definition")
+            continue
+        # what is returned on such paths: only the argument itself is acceptable
+        org = flow.origins(0, ())
+        tree = [i for i in range(1, f["argc"] + 1) if not f["locals"][i]["ty"].startswith("&")]
+        whole = all(o[0] == "arg" and not o[2] and o[1] in tree for o in org if o[0] == "arg") and any(o[0] == "arg" for o in org)
+        partial = [o for o in org if o[0] == "arg" and o[2]]
+        if partial or not whole:
+            res.inst(ikey, fn.file, fn.line, "violation")
+            res.violate(ikey, "%s can return without adding a lifted definition, and what it returns then is %s: the rest of the argument is "
+                        "dropped from the program" % (f["key"].split("::")[-1], ("the part `%s` of its argument" % ".".join(partial[0][2])) if partial else "not its argument"),
+                        fn.file, fn.line)
+        else:
+            res.inst(ikey, fn.file, fn.line, "ok", "paths that do not lift hand the argument back unchanged")
+    return res
+
+
 def rule_liftstore(ctx):
     """R-LIFTSTORE: the store of lifted definitions is write-only for the translation"""
     from ..mir import Fn, place_fields
